@@ -116,6 +116,38 @@ let check_line (line : string) : unit =
            | Inr _ -> ()
            | Inl i -> disagree "async_accept" "accepted" (Printf.sprintf "rejected at token %d" (int_of_nat i)));
           if get "ok" <> "1" then oracle "operation_panicked";
+          (* C13: every setup() of the operation list visits every system once, in the order of the model (Visit.v) *)
+          let model_order = List.map int_of_n (visits regs) in
+          let ints s = if s = "-" || s = "" then [] else List.map int_of_string (split_on '.' s) in
+          let n_setup_ops = List.length (List.filter (fun o -> o = "s") (split_on ',' (param "ops"))) in
+          let entries = if get "setups" = "-" || get "setups" = "" then [] else split_on ',' (get "setups") in
+          if get "setups" <> "" then begin
+            if List.length entries <> n_setup_ops then oracle "setup_visits";
+            List.iter (fun e -> match split_on ':' e with
+                | [i; tags] ->
+                    if String.length i > 0 && i.[0] = '!' then ()     (* the operation panicked: reported above *)
+                    else begin
+                      let got = ints tags in
+                      if got <> model_order then disagree "setup_order" (tok_of_ints model_order) (tok_of_ints got);
+                      if List.sort compare got <> List.sort compare model_order then oracle "setup_visits"
+                    end
+                | _ -> oracle "setup_visits") entries
+          end;
+          (* C14/C12 epilogue: a thread-local system panicking inside wait() *)
+          if param "tlf" <> "-" && param "tlf" <> "" && get "fe1p" <> "" then begin
+            let f = int_of_string (param "tlf") in
+            let rec upto = function [] -> [] | x :: r -> if x = f then [x] else x :: upto r in
+            if ints (get "fe1") <> upto ttags || get "fe1p" <> "1" then oracle "tl_panic_contained";
+            if ints (get "fe2") <> ttags || get "fe2p" <> "0" then oracle "next_dispatch";
+            if get "fe3p" <> "0" || List.sort compare (ints (get "fe3")) <> List.sort compare model_order then oracle "setup_visits";
+            let parse_runs s = if s = "" then [] else List.map (fun kv -> match split_on ':' kv with [a; b] -> (int_of_string a, int_of_string b) | _ -> (-1, -1)) (split_on ',' s) in
+            let r0 = parse_runs (get "runs") and r1 = parse_runs (get "feruns") in
+            List.iter (fun s -> match List.assoc_opt s r0, List.assoc_opt s r1 with
+                | Some a, Some b -> if b <> a + 2 then oracle "next_dispatch" | _ -> ()) stags;
+            let before = upto ttags in
+            List.iter (fun t -> match List.assoc_opt t r0, List.assoc_opt t r1 with
+                | Some a, Some b -> if b <> a + (if List.mem t before then 2 else 1) then oracle "next_dispatch" | _ -> ()) ttags
+          end;
           (* exactly once per dispatch (C15): run counters *)
           let runs = if get "runs" = "" then [] else List.map (fun kv -> match split_on ':' kv with [a; b] -> (int_of_string a, int_of_string b) | _ -> (-1, -1)) (split_on ',' (get "runs")) in
           List.iter (fun s -> match List.assoc_opt s runs with Some n -> if n <> !dispatched then oracle "async_once" | None -> ()) stags;
